@@ -785,7 +785,14 @@ func genCollWorld(r *rand.Rand, emit func(Op)) {
 	for k := range hostOf {
 		hostOf[k] = pick(r, []int{home, home, home, other})
 	}
-	pageName := func(k int) string { return fmt.Sprintf("page%d", k) }
+	/* identifiers that end in a slash (a directory): what a relative reference is resolved
+	   against is the identifier as written, slash included */
+	slash := ""
+	if r.Intn(4) == 0 {
+		slash = "/"
+		g.rel = relativeRefs
+	}
+	pageName := func(k int) string { return fmt.Sprintf("page%d%s", k, slash) }
 	pageURL := func(k int) string { return g.url(hostOf[k], pageName(k)) }
 	emptyBias := r.Intn(3)
 	nn := 0
@@ -804,7 +811,7 @@ func genCollWorld(r *rand.Rand, emit func(Op)) {
 		}
 		return out
 	}
-	rootURL := g.url(home, "coll")
+	rootURL := g.url(home, "coll"+slash)
 	/* where the last page points */
 	last := weighted(r, 4, 2, 2, 2, 2, 1)
 	for k := np - 1; k >= 0; k-- {
@@ -865,6 +872,6 @@ func genCollWorld(r *rand.Rand, emit func(Op)) {
 	if r.Intn(8) == 0 {
 		delete(root, "id")
 	}
-	start := g.serve(home, "coll", root)
+	start := g.serve(home, "coll"+slash, root)
 	emit(Op{"op": "pubworld", "routes": g.routes, "start": start, "before": []any{}, "harvest": pick(r, []int{0, 1, 2, 3, 5, 8, 12, 20}), "more": moreAmounts(r), "parents": 0})
 }
